@@ -67,8 +67,10 @@ def judge_one(mon: Mon, S, cc, bban, table, tag):
     judge.repeated_validation_consistent(mon, text, o_flag, w)
     for form, arg in (("str", bban), ("BBAN", S.BBAN(cc, bban))):
         ofb = observe(S.IBAN.from_bban, cc, arg, validate_bban=True)
-        if ofb.ok != o_flag.ok:
-            mon.viol(f"from_bban_with_flag_disagrees:{form}", w, o_flag.brief(), ofb.brief())
+        ofp = observe(S.IBAN.from_bban, cc, arg, False, True)
+        if ofb.ok != o_flag.ok or ofp.ok != o_flag.ok:
+            mon.viol(f"from_bban_with_flag_disagrees:{form}", w, o_flag.brief(), [ofb.brief(), ofp.brief()])
+    judge.call_forms_agree(mon, "iban", text, True, o_flag, w)
     if o_bb.ok and o_bb.value is not True:
         mon.viol("bban_check_success_not_true", w, True, o_bb.brief())
     if o_val.ok and o_val.value is not True:
